@@ -54,7 +54,9 @@ def valid(seq):
 
 
 def run_seq(b: Batch, kind, seq, led, ctx):
-    c = apireal.Case(kind, led, timeout=ctx.get("timeout"))
+    c = apireal.Case(kind, led, timeout=ctx.get("timeout"), follow=ctx.get("follow", False))
+    if c.follow:
+        b.count("cases_with_followed_links_resolving_to_the_root")
     rm_p2 = False
     for op, arg in seq:
         if op == "rm":
@@ -76,7 +78,7 @@ def run_seq(b: Batch, kind, seq, led, ctx):
             if rec2["status"] == "hung":
                 break
     out = c.finish()
-    judge(b, out, c.log, {"kind": kind, "seq": [list(x) for x in seq]}, {"kind": "seq1", "emitter": kind, "seq": [list(x) for x in seq], "timeout": ctx.get("timeout")})
+    judge(b, out, c.log, {"kind": kind, "seq": [list(x) for x in seq]}, {"kind": "seq1", "emitter": kind, "seq": [list(x) for x in seq], "timeout": ctx.get("timeout"), "follow": ctx.get("follow", False)})
     nlib = sum(1 for r in c.log if r["op"] == "start" and r["status"] == "ok")
     if nlib and len(c.log) >= 3:
         b.nontrivial([kind, seq])
@@ -95,6 +97,8 @@ def judge(b: Batch, out, log, wit, rs, hold=None):
                         witness=dict(wit, stacks=h["stacks"]), replay_spec=rs)
         else:
             b.inconc(f"C06: {h['call']} exceeded the watchdog but stacks were still changing")
+            # the unfinished call keeps running in this process and may start library threads during later cases: the batch ends here
+            b.budget = 0.0
         return
     if out.get("threads_alive_at_return") and not out["threads_alive"]:
         b.violation("thread-alive-when-stop-join-returned", f"library thread(s) still running 50 ms after the final stop() (+ join()) had returned (they ended later): {[t['thread'] for t in out['threads_alive_at_return']]}",
@@ -387,7 +391,7 @@ def run_batch(spec):
             if not valid(seq):
                 continue
             # a third of the cases with a short observer timeout (the emitters' own pacing is then far slower than the timeout)
-            out = run_seq(b, spec["emitter"], seq, led, {"timeout": 0.05 if n % 3 == 0 else None})
+            out = run_seq(b, spec["emitter"], seq, led, {"timeout": 0.05 if n % 3 == 0 else None, "follow": ("self", "up")[n % 2] if n % 5 == 1 else False})
             if n == 0:
                 b.sample({"emitter": spec["emitter"], "sequence": [list(x) for x in seq]})
     elif k == "multi":
@@ -437,7 +441,7 @@ def run_batch(spec):
     elif k == "unmount1":
         run_unmount(b, led, spec["variant"])
     elif k == "seq1":
-        run_seq(b, spec["emitter"], [tuple(x) for x in spec["seq"]], led, {"timeout": spec.get("timeout")})
+        run_seq(b, spec["emitter"], [tuple(x) for x in spec["seq"]], led, {"timeout": spec.get("timeout"), "follow": spec.get("follow", False)})
     elif k == "hold1":
         ins = apireal.instr_for_pipeline(1)
         with ins:
